@@ -1,7 +1,7 @@
 (* Properties/C13.v — Headers and uncles are accepted iff they satisfy the consensus rules.
    Only statements closed by `exact`, with Print Assumptions under each. *)
 From AQ Require Import Lib.Bytes Generated.GenParamsConsensus
-  Consensus.HeaderModel Consensus.HeaderSpec Consensus.HeaderProofs Consensus.BatchProofs.
+  Consensus.HeaderModel Consensus.HeaderSpec Consensus.HeaderProofs Consensus.BatchProofs Consensus.ChainModel Consensus.ChainProofs.
 Local Open Scope Z_scope.
 
 (* verifyHeader accepts exactly when, relative to the parent: number = parent + 1, timestamp strictly later and
@@ -182,6 +182,60 @@ Theorem C13_collector_progress :
     brun v n b_init sched = Some s -> b_finished s = false -> exists e, bstep v n s e <> None.
 Proof. exact collector_progress. Qed.
 Print Assumptions C13_collector_progress.
+
+(* the collector cannot run for ever: every run has at most 2n events (n dispatches, n completions), and from every
+   reachable state it can be run on to the state in which it has returned — with progress: whatever the scheduler does,
+   VerifyHeaders delivers all n results after at most 2n events *)
+Theorem C13_collector_run_length :
+  forall (v : nat -> res unit) (n : nat) (sched : list event) (s : bstate),
+    brun v n b_init sched = Some s -> (length sched <= 2 * n)%nat.
+Proof. exact run_length_bound. Qed.
+Print Assumptions C13_collector_run_length.
+
+Theorem C13_collector_terminates :
+  forall (v : nat -> res unit) (n : nat), (0 < n)%nat ->
+  forall (sched : list event) (s : bstate),
+    brun v n b_init sched = Some s ->
+    exists rest s', brun v n b_init (sched ++ rest) = Some s' /\ b_finished s' = true /\
+                    (length (sched ++ rest) <= 2 * n)%nat.
+Proof. exact collector_terminates. Qed.
+Print Assumptions C13_collector_terminates.
+
+(* header-first import (core/headerchain.go ValidateHeaderChain).  The seal sample, for EVERY stream of random numbers:
+   one flag per header, the last header always sampled, every complete window of checkFreq headers contains a sampled one;
+   it panics exactly for checkFreq = 0 or an empty chain *)
+Theorem C13_seal_sample_spec :
+  forall (len freq : nat) (rands : list nat) (seals : list bool),
+    pick_seals len freq rands = Some seals ->
+    length seals = len /\
+    nth (len - 1) seals false = true /\
+    forall w, (w < len / freq)%nat -> window_hit len freq seals w.
+Proof. exact pick_seals_spec. Qed.
+Print Assumptions C13_seal_sample_spec.
+
+Theorem C13_seal_sample_panics_iff :
+  forall (len freq : nat) (rands : list nat), pick_seals len freq rands = None <-> freq = O \/ len = O.
+Proof. exact pick_seals_panics. Qed.
+Print Assumptions C13_seal_sample_panics_iff.
+
+(* accepted by ValidateHeaderChain iff contiguous, no blacklisted hash, and every header passes its worker with the
+   sampled seal flags; and then (unknown headers, numbers in [1,2^64)) it is accepted by one-by-one VerifyHeader *)
+Theorem C13_validate_header_chain_ok_iff :
+  forall (c : cfg) (chain : list header) (now : Z) (hs : list header) (seals : list bool) (bad : bytes -> bool),
+    validate_with_seals c chain now hs seals bad = VOk <->
+    contiguous_b hs = true /\
+    (forall h, In h hs -> bad (h_hash h) = false) /\
+    (forall i, (i < length hs)%nat -> verify_worker c chain now hs seals i = Ok tt).
+Proof. exact validate_ok_iff. Qed.
+Print Assumptions C13_validate_header_chain_ok_iff.
+
+Theorem C13_validate_header_chain_ok_sequential :
+  forall (c : cfg) (chain : list header) (now : Z) (hs : list header) (seals : list bool) (bad : bytes -> bool),
+    batch_ok chain hs ->
+    validate_with_seals c chain now hs seals bad = VOk ->
+    sequential c chain now hs seals 0 = None.
+Proof. exact validate_ok_sequential. Qed.
+Print Assumptions C13_validate_header_chain_ok_sequential.
 
 (* uncles at ANY height, the hard-coded historic exceptions stated explicitly (uncles_spec, HeaderSpec.v) *)
 Theorem C13_uncles_iff_any_height :
